@@ -5,7 +5,8 @@ Tie: translator (weibull2gumbel, Gumbel.fit_from_weibull_parameters; identities 
 correspondence of the three entry points with the generated formulas.
 Search: gloc = Weibull (1-1/n)-quantile, gscale = 1/(n·pdf(gloc)) on the implementation; statistics summary
 (`TimeSeries.stats`, `TsDB.stats`, `app.funcs.calculate_stats`): consistency with its parts, affine equivariance,
-minima = mirrored maxima; the same chain through the fitted-distribution entry points (`Weibull.fit`, `Weibull.fromsignal`,
+minima = mirrored maxima — on series with constant and non-constant time step, windowed / filtered / resampled, and through the
+database entry points (`TsDB.stats`, `TsDB.stats_dataframe`) on SEVERAL series queried in turn for both variants; the same chain through the fitted-distribution entry points (`Weibull.fit`, `Weibull.fromsignal`,
 `TimeSeries.fit_weibull`) on samples with and without exact ties.
 
 Every generated case is a self-contained JSON dict (`kind` = w2g / fit / summary) that `replay()` re-evaluates.
@@ -24,17 +25,42 @@ ANCHOR_PREFIX = ("w2g_", "wfw_", "wb_invcdf", "wb_pdf")
 RULE = ("seeded Weibull parameters (loc in [-20,20], scale log-uniform, shape in [0.6,6]) x n in [2, 1e6]; fitted distributions on "
         "seeded samples (continuous / one decimal / integer-valued = exact ties; ndarray or list; drawn / ascending / descending) "
         "x pwm / msm; seeded multi-tone + noise signals (600-3000 samples, >= 2 global maxima, quantised to 1/1024, 1/8 or 1/2 = "
-        "tied maxima) x affine maps with a = 2^k, b integer x windows / low-pass filter x maxima / minima x durations x 2-4 "
-        "quantiles listed in ANY order (tuple / list / ndarray) x a preceding different query on the same object; "
+        "tied maxima; time step constant / two rates / seeded unequal steps / a gap) x affine maps with a = 2^k, b integer x windows / low-pass filter / resampling to a new step or time array (and combinations) x maxima / minima x durations x 2-4 "
+        "quantiles listed in ANY order (tuple / list / ndarray) x a preceding different query on the same object; database fan-out on 2-4 series sharing one time array, added and requested in "
+        "seeded orders, maxima and minima variants queried in turn on the same database (dict and dataframe); "
         "non-trivial = every case; distinct by input")
 QPOOL = [0.0, 0.05, 0.1, 0.37, 0.5, 0.57, 0.9, 0.95, 0.99]
 
 
-def make_signal(sig_seed, n, step=1. / 1024, level=0.0):
+TMODES = ("uniform", "two-rate", "jitter", "gap")
+
+
+def make_time(tseed, n, tmode="uniform"):
+    """time array of n samples with dyadic values (exact in floating point): constant step 0.5 / fine sampling (0.25) first and
+    coarse (0.5) afterwards / seeded steps from {0.25, 0.5, 0.75, 1.0} / constant step with a block of samples missing"""
+    if tmode == "uniform":
+        return np.arange(n) * 0.5
+    rng = random.Random(tseed * 7 + 3)
+    if tmode == "two-rate":
+        k = rng.randint(n // 5, n // 2)
+        dt = np.r_[np.full(k, 0.25), np.full(n - 1 - k, 0.5)]
+    elif tmode == "jitter":
+        nr = np.random.RandomState(rng.randint(0, 10 ** 6))
+        dt = nr.choice([0.25, 0.5, 0.5, 0.75, 1.0], size=n - 1)
+    elif tmode == "gap":
+        dt = np.full(n - 1, 0.5)
+        dt[rng.randint(n // 3, 2 * n // 3)] = float(rng.choice([8, 40, 100]))
+    else:
+        raise ValueError(tmode)
+    return np.r_[0.0, np.cumsum(dt)]
+
+
+def make_signal(sig_seed, n, step=1. / 1024, level=0.0, tmode="uniform", tseed=None):
     """seeded multi-tone + noise signal, dyadic quantisation so that x -> a*x + b (a = 2^k, b integer) is exact in floating
-    point; a coarse step gives plateaus and global maxima with exactly equal values"""
+    point; a coarse step gives plateaus and global maxima with exactly equal values. `tmode` selects the sampling (constant or
+    non-constant time step), `tseed` the seed of the time array (default: the signal's)"""
     rng = random.Random(sig_seed)
-    t = np.arange(n) * 0.5
+    t = make_time(sig_seed if tseed is None else tseed, n, tmode)
     x = np.zeros(n)
     for _ in range(rng.choice([2, 3, 5])):
         x += rng.uniform(0.3, 2.0) * np.sin(2 * np.pi * rng.uniform(0.01, 0.12) * t + rng.uniform(0, 6.28))
@@ -107,15 +133,100 @@ def fit_clauses(inp):
 
 # ---- statistics summary ------------------------------------------------------------------------------------------------------------
 def summary_kwargs(inp):
+    """keyword arguments of TimeSeries.get() for the case; `resample` is a float (new constant step) or
+    {"linspace": [start, stop, num], "aslist": bool} (new time array, as ndarray or list)"""
     kw = {}
     for k, v in (inp.get("kwargs") or {}).items():
-        kw[k] = tuple(v) if isinstance(v, (list, tuple)) else v
+        if k == "resample":
+            if isinstance(v, dict):
+                arr = np.linspace(*v["linspace"])
+                kw[k] = arr.tolist() if v.get("aslist") else arr
+            else:
+                kw[k] = float(v)
+        else:
+            kw[k] = tuple(v) if isinstance(v, (list, tuple)) else v
     return kw
 
 
 def summary_quantiles(inp):
     q = [float(v) for v in inp["quantiles"]]
     return {"tuple": tuple(q), "list": list(q), "array": np.array(q)}[inp.get("qtype", "tuple")]
+
+
+STAT_FIELDS = ("start", "end", "duration", "dtavg", "mean", "std", "skew", "kurt", "min", "max", "tz",
+               "wloc", "wscale", "wshape", "gloc", "gscale")
+
+
+def num(v):
+    try:
+        return float(v)
+    except (TypeError, ValueError):
+        return float("nan")
+
+
+def db_clauses(inp, t, x, kw, quant, qlist, dist=None):
+    """failing clauses of the database entry points on a database holding SEVERAL series built from the same time array (the
+    case's signal, its affine image, its negation, another signal), added and requested in seeded orders; both variants
+    (maxima, minima) are queried one after the other on the same database: every series' summary must be the one
+    TimeSeries.stats gives for that series with the same options, and the minima summary of a series the mirror image of the
+    maxima summary of its negation"""
+    from qats import TimeSeries, TsDB
+    fails = []
+    rng = random.Random(inp["sig_seed"] * 31 + 5)
+    statsdur, ismin = inp["statsdur"], inp["is_minima"]
+    xs = {"s": x, "s_affine": inp["a"] * x + inp["b"], "s_neg": -x,
+          "other": make_signal(inp["sig_seed"] + 1, inp["n"], inp.get("step", 1. / 1024), inp.get("level", 0.0) + 1.0,
+                               inp.get("tmode", "uniform"), tseed=inp["sig_seed"])[1]}
+    members = ["s", "s_neg"] + rng.sample(["s_affine", "other"], rng.choice([0, 1, 2]))
+    rng.shuffle(members)
+    db = TsDB()
+    for nm in members:
+        db.add(TimeSeries(nm, t, xs[nm]))
+    sel = rng.choice(["all", "listed", "listed"])
+    req = None if sel == "all" else rng.sample(members, len(members))           # any order, not the order of insertion
+    wanted = members if req is None else req
+    if dist:
+        dist("db:%d-series:%s" % (len(members), sel))
+    fields = list(STAT_FIELDS) + [pkey(q) for q in qlist]
+    res = {}
+    for step, flag in enumerate((ismin, not ismin, ismin)):
+        entry = "TsDB.stats_dataframe" if step == 2 else "TsDB.stats"
+        common = dict(statsdur=statsdur, quantiles=quant, is_minima=flag, **kw)
+        try:
+            d = (db.stats_dataframe if step == 2 else db.stats)(names=req, **common)
+            got = {nm: {f: d[nm][f] for f in fields + ["is_minima"]} for nm in wanted if nm in d}
+        except Exception as e:
+            fails.append(("%s on several series is an entry point of the chain (must not raise)" % entry,
+                          dict(series=wanted, variant="minima" if flag else "maxima"), "summaries", repr(e)))
+            continue
+        if sorted(got) != sorted(wanted):
+            fails.append(("%s returns one summary per selected series" % entry, dict(series=wanted), sorted(wanted), sorted(got)))
+        for nm in got:
+            ref = TimeSeries(nm, t, xs[nm]).stats(**common)
+            bad = [f for f in fields if not close(num(got[nm][f]), num(ref[f]), 1e-12)]
+            if bool(got[nm]["is_minima"]) != bool(flag):
+                bad.append("is_minima")
+            if bad:
+                fails.append(("%s gives for EVERY selected series the summary of TimeSeries.stats with the same options (statsdur, "
+                              "quantiles, maxima/minima variant, window/resampling/filter)" % entry,
+                              dict(series=nm, position=wanted.index(nm), of=len(wanted), variant="minima" if flag else "maxima"),
+                              {f: (bool(flag) if f == "is_minima" else num(ref[f])) for f in bad},
+                              {f: (bool(got[nm][f]) if f == "is_minima" else num(got[nm][f])) for f in bad}))
+        if step < 2:
+            res[flag] = got
+    if "filterargs" not in kw and len(res) == 2:
+        for flag in (True, False):
+            for nm, mirror in (("s", "s_neg"), ("s_neg", "s")):
+                if nm in res[flag] and mirror in res[not flag]:
+                    g, m = res[flag][nm], res[not flag][mirror]
+                    same = all(close(num(g[f]), num(m[f]), 1e-10) for f in ("wloc", "wscale", "wshape", "gloc", "gscale"))
+                    neg = all(close(num(g[pkey(q)]), -num(m[pkey(q)]), 1e-10) for q in qlist)
+                    if not (same and neg):
+                        names_ = ["wloc", "wscale", "wshape", "gloc", "gscale"] + [pkey(q) for q in qlist]
+                        fails.append(("TsDB.stats: the minima variant of a series is the mirror image of the maxima variant of the "
+                                      "negated series held by the same database", dict(series=nm, variant="minima" if flag else "maxima"),
+                                      [num(m[f]) for f in names_[:5]] + [-num(m[f]) for f in names_[5:]], [num(g[f]) for f in names_]))
+    return fails
 
 
 def summary_clauses(inp, dist=None):
@@ -125,7 +236,8 @@ def summary_clauses(inp, dist=None):
     from qats.stats.gumbel import Gumbel
     from qats.app.funcs import calculate_stats
     fails = []
-    t, x = make_signal(inp["sig_seed"], inp["n"], inp.get("step", 1. / 1024), inp.get("level", 0.0))
+    tmode = inp.get("tmode", "uniform")
+    t, x = make_signal(inp["sig_seed"], inp["n"], inp.get("step", 1. / 1024), inp.get("level", 0.0), tmode)
     n = inp["n"]
     kw = summary_kwargs(inp)
     statsdur, ismin = inp["statsdur"], inp["is_minima"]
@@ -142,27 +254,34 @@ def summary_clauses(inp, dist=None):
         tt, xx = ts.get(**kw)
     except Exception as e:
         return [("TimeSeries.stats is an entry point of the chain (must not raise)", {}, "summary", repr(e))]
+    # consistency with its parts: the summary describes the processed series (tt, xx) = get(**kwargs) — windowed, resampled,
+    # filtered — whatever the sampling of the stored series
+    nt = int(np.size(tt))
+    ok = (s["min"] <= s["mean"] <= s["max"] and close(s["duration"], tt[-1] - tt[0], 1e-12) and s["start"] == tt[0] and
+          s["end"] == tt[-1] and close(s["dtavg"], float(np.mean(np.diff(tt))), 1e-12) and
+          close(float(s["dtavg"]) * (nt - 1), float(s["end"] - s["start"]), 1e-9) and
+          s["min"] == xx.min() and s["max"] == xx.max() and close(s["mean"], float(xx.mean()), 1e-12))
+    if not ok:
+        fails.append(("summary consistent with its parts (min <= mean <= max, start/end/duration, mean step: dtavg == mean step of "
+                      "the processed series, dtavg*(samples-1) == duration)", {},
+                      dict(start=float(tt[0]), end=float(tt[-1]), duration=float(tt[-1] - tt[0]), dtavg=float(np.mean(np.diff(tt))),
+                           min=float(xx.min()), mean=float(xx.mean()), max=float(xx.max()), samples=nt),
+                      {a: float(s[a]) for a in ("start", "end", "duration", "dtavg", "min", "mean", "max")}))
+    proc = "+".join(k for k in ("twin", "resample", "filterargs") if k in kw) or "plain"
     if s["sample"] is None or np.size(s["sample"]) < 2:
         if dist:
-            dist("stats:too-few-maxima")
+            dist("stats:too-few-maxima:%s:%s" % (tmode, proc))
         return fails
     msize = int(np.size(s["sample"]))
     ties = msize - int(np.unique(s["sample"]).size)
     if dist:
-        dist("stats:%s:%s:%s:%s" % ("min" if ismin else "max", "twin" if "twin" in kw else ("filter" if kw else "plain"),
-                                    "tied-peaks" if ties else "distinct-peaks",
-                                    "q-ascending" if qlist == sorted(qlist) else "q-unordered"))
+        dist("stats:%s:%s:%s:%s:%s" % ("min" if ismin else "max", tmode, proc, "tied-peaks" if ties else "distinct-peaks",
+                                       "q-ascending" if qlist == sorted(qlist) else "q-unordered"))
     missing = [pkey(q) for q in qlist if pkey(q) not in s]
     if missing:
         return [("the summary has one estimate p_XX per requested quantile", {}, [pkey(q) for q in qlist], missing)]
     pv = [float(s[pkey(q)]) for q in qlist]
     dur = float(tt[-1] - tt[0])
-    ok = (s["min"] <= s["mean"] <= s["max"] and close(s["duration"], tt[-1] - tt[0], 1e-12) and s["start"] == tt[0] and
-          s["end"] == tt[-1] and close(s["dtavg"], float(np.mean(np.diff(tt))), 1e-12) and
-          s["min"] == xx.min() and s["max"] == xx.max() and close(s["mean"], float(xx.mean()), 1e-12))
-    if not ok:
-        fails.append(("summary consistent with its parts (min <= mean <= max, start/end/duration, mean step)", {}, "consistent",
-                      {a: float(s[a]) for a in ("min", "mean", "max", "start", "end", "duration", "dtavg")}))
     wpar = fl(s[k] for k in ("wloc", "wscale", "wshape"))
     nn = round(statsdur / (tt[-1] - tt[0]) * msize)
     if not any(np.isnan(pv)):
@@ -193,7 +312,7 @@ def summary_clauses(inp, dist=None):
     if all(np.isfinite(wpar)):
         try:
             ws = [("Weibull.fromsignal", Weibull.fromsignal(sign * xx, method="pwm"))]
-            if "filterargs" not in kw:
+            if "filterargs" not in kw and "resample" not in kw:         # (fit_weibull only takes a time window)
                 tsf = ts if not ismin else TimeSeries("s", t, -x)
                 ws.append(("TimeSeries.fit_weibull", tsf.fit_weibull(twin=kw.get("twin"), method="pwm")))
             sd = ts.stats(statsdur=dur, quantiles=quant, is_minima=ismin, **kw)       # n == number of peaks
@@ -248,6 +367,7 @@ def summary_clauses(inp, dist=None):
             if badn:
                 fails.append(("TsDB.stats equals TimeSeries.stats", {}, {nm: float(s[nm]) for nm in badn},
                               {nm: float(d1[key].get(nm, np.nan)) for nm in badn}))
+            fails += db_clauses(inp, t, x, kw, quant, qlist, dist)
             twin = kw.get("twin", (t[0], t[-1]))
             g = calculate_stats({"s": ts}, twin, kw.get("filterargs"), minima=ismin)["s"]
             ref = ts.stats(twin=twin, filterargs=kw.get("filterargs"), statsdur=10800., quantiles=(0.37, 0.57, 0.9), is_minima=ismin,
@@ -273,20 +393,32 @@ def summary_clauses(inp, dist=None):
 
 def gen_summary(rng, fanout, seed):
     n = rng.choice([600, 1200, 3000])
-    t = np.arange(n) * 0.5
+    sig_seed = rng.randint(0, 10 ** 9)
+    tmode = rng.choice(["uniform", "uniform", "uniform", "two-rate", "jitter", "gap"])     # constant / non-constant time step
+    t = make_time(sig_seed, n, tmode)
     kw = {}
     mode = rng.random()
     if mode < 0.3:
         kw["twin"] = [float(t[n // 10]), float(t[-n // 10])]
     elif mode < 0.5:
         kw["filterargs"] = ["lp", 0.2]
+    elif mode < 0.6:
+        kw["twin"] = [float(t[n // 10]), float(t[-n // 10])]
+        kw["filterargs"] = ["lp", 0.2]
+    if rng.random() < 0.3:
+        # summary of the resampled series: new constant step (finer, equal to, coarser than the stored one) or a new time array
+        if "twin" in kw or rng.random() < 0.6:
+            kw["resample"] = rng.choice([0.25, 0.5, 0.3, 0.8, 1.0, 1.5])
+        else:
+            t0, t1 = float(t[n // 20]), float(t[-n // 20])
+            kw["resample"] = dict(linspace=[t0, t1, int((t1 - t0) / rng.choice([0.4, 0.5, 1.0])) + 1], aslist=rng.random() < 0.5)
     quant = rng.sample(QPOOL, rng.choice([2, 3, 3, 4]))
     order = rng.random()
     if order < 0.35:
         quant = sorted(quant)                           # ascending, as the default
     elif order < 0.5:
         quant = sorted(quant, reverse=True)
-    return dict(kind="summary", sig_seed=rng.randint(0, 10 ** 9), n=n, step=rng.choice([1. / 1024, 1. / 1024, 0.125, 0.5]),
+    return dict(kind="summary", sig_seed=sig_seed, n=n, tmode=tmode, step=rng.choice([1. / 1024, 1. / 1024, 0.125, 0.5]),
                 level=rng.choice([0.0, -5.0, 3.0]),           # also signals at a negative level
                 kwargs=kw, statsdur=rng.choice([10800., 3600., 1000.]), quantiles=quant,
                 qtype=rng.choice(["tuple", "tuple", "list", "array"]), is_minima=rng.random() < 0.4,
